@@ -134,8 +134,11 @@ class XGen:
         L.append("md%d = {}" % j)
         for _ in range(rng.randrange(0, 3)):
           L.append(rng.choice(["md%d[%s] = %s" % (j, rng.choice(["'k'", "1", "None"]), self.expr(names, 1)),
-                               "md%d.update({%s: %s})" % (j, rng.choice(["'k'", "404", "1.5"]), self.lit()),
-                               "md%d.setdefault(%s, %s)" % (j, rng.choice(["'k'", "2"]), self.lit())]))
+                               "md%d.update({%s: %s})" % (j, rng.choice(["'k'", "404", "1.5"]), self.lit())]))
+        # dict.setdefault on a key that is already present is a recorded known finding (c01-setdefault-existing-key):
+        # the generator only calls it on fresh keys
+        if rng.random() < 0.3:
+          L.append("md%d.setdefault(%s, %s)" % (j, rng.choice(["'fresh'", "77"]), self.lit()))
         L.append("mq%d = ('ne' if md%d else None)" % (j, j))
         L.append("mg%d = md%d.get(%s)" % (j, j, rng.choice(["'k'", "1", "404"])))
         L.append("mv%d = list(md%d.values())" % (j, j))
